@@ -339,7 +339,7 @@ def check_seq(case, stats):
             raise Violation('C18/seq-pickle-changes-index-outputs/' + name,
                             'history %s: %s differs after the pickle round trip by %g' % (case['ops'], what, np.abs(x - z).max()))
     else:
-      r = call('C18/seq-fit/' + name, est.fit, *E.fit_args(name, data), expect=exp)
+      r = E.fit_call('C18/seq-fit', name, est, E.fit_args(name, data), desc, model, expect=exp)
       if isinstance(r, Exception):
         raise Discard('specified fit failure (%s)' % type(r).__name__)
       fitted = True
@@ -358,8 +358,8 @@ def check_seq(case, stats):
   if arr_spec is not None:
     final[ARRAY_PARAM[name]] = array_value(name, data.d, *arr_spec)      # a pristine array of the same values
   ref = E.build(name, final)
-  r1 = call('C18/seq-final-fit/' + name, est.fit, *E.fit_args(name, data), expect=exp)
-  r2 = call('C18/seq-ref-fit/' + name, ref.fit, *E.fit_args(name, data), expect=exp)
+  r1 = E.fit_call('C18/seq-final-fit', name, est, E.fit_args(name, data), desc, model, expect=exp)
+  r2 = E.fit_call('C18/seq-ref-fit', name, ref, E.fit_args(name, data), desc, final, expect=exp)
   if isinstance(r1, Exception) or isinstance(r2, Exception):
     if type(r1) is not type(r2):
       raise Violation('C18/seq-fit-outcome/' + name, '%r vs %r' % (r1, r2))
